@@ -20,6 +20,24 @@ CHECKS = {
          "DESIGN.md §3 C03"),
 }
 
+CHECKS.update({
+ "C02": ("E3 pure driver", "fault_enumeration",
+         "runtime monitor: bit-flip fault enumeration over real sealed frames, oracle = hop-mutable position map from the statement; wrong-session matrix; clear-text search",
+         "For seeded parameter tuples across all message types, pooled tiers, switch/appendix sizes and margins the real Seal/ParseFrame/Unseal run on every flipped header/switch/length/auth bit and on payload bits (all bits for small frames), and on TTL/flow/appendix edits that must keep the frame valid; acceptance is compared with 'all flipped bits hop-mutable'.",
+         "Trusts Ed25519/ChaCha20-Poly1305 strength; payload bits of frames above the exhaustive bound are sampled; a parse error counts as rejection.",
+         "DESIGN.md §3 C02"),
+ "C12": ("E3 pure driver", "exploration",
+         "runtime monitor: real BuildBlocks + hop-by-hop NextRotateSwitchBlock/TransformToReturnBlock traversal inside guard bytes against a reference occupancy bound; observed minimality probe",
+         "All label vectors over size-class representatives up to 4 (6 reps) / 6 (3 reps) hops and millions of seeded random paths up to 101 hops (incl. totals around and beyond 255 bytes) are built and traversed forward and back with the real code; labels, guard bytes, return block, reverse traversal and computed size (sufficient, minimal by executing with one byte less) are asserted.",
+         "Label values are class representatives for the exhaustive part; longer paths are sampled.",
+         "DESIGN.md §3 C12"),
+ "C17": ("E3 pure driver + E5 race detector", "exploration",
+         "runtime monitor: shadow-image comparison of every live frame after every operation of seeded op sequences on a shared Builder; tag/link/address search on recycled structs and slices; Go race detector on a shared builder",
+         "Seeded sequences of new/parse/clone/reply/set-appendix/edit/release operations with sizes on every pooled tier boundary run against one shared Builder; every live frame is compared with its shadow after every step, clones with their originals, and every new or recycled frame's whole buffer is searched for bytes, links and addresses of released frames; recycling is confirmed by pointer identity.",
+         "sync.Pool decides what is recycled (counted, minimum enforced); sequences are sampled, not enumerated.",
+         "DESIGN.md §3 C17"),
+})
+
 NOT_YET = "check not implemented yet in this revision of /verif (work in progress; see DESIGN.md §8)"
 
 def main():
